@@ -3,9 +3,10 @@
 for item in $1; do
   id=${item%%:*}; rest=${item#*:}; prop=${rest%%:*}; tier=${rest#*:}
   git -C $VP_RUN_REPO checkout -q -- . 
-  if ! git -C $VP_RUN_REPO apply /verif/seeded/$id/patch.diff; then echo "SEEDRESULT $id $prop patch-does-not-apply"; continue; fi
-  GEO_REPO=$VP_RUN_REPO ./check $prop --tier $tier > seed_$id.log 2>&1; rc=$?
-  echo "SEEDRESULT $id $prop tier=$tier rc=$rc $(grep -c '^VIOLATION' seed_$id.log) violations: $(grep '^VIOLATION' seed_$id.log | sed 's/.*replay\///' | tr '\n' ' ')"
-  grep -E "^UNDECIDED" seed_$id.log | head -3
+  PATCH=/verif/seeded/$id/patch.diff; [ -f /verif/seeded/$id.diff ] && PATCH=/verif/seeded/$id.diff
+  if ! git -C $VP_RUN_REPO apply $PATCH; then echo "SEEDRESULT $id $prop patch-does-not-apply"; continue; fi
+  GEO_REPO=$VP_RUN_REPO ./check $prop --tier $tier > seed_$(basename $id).log 2>&1; rc=$?
+  echo "SEEDRESULT $id $prop tier=$tier rc=$rc $(grep -c '^VIOLATION' seed_$(basename $id).log) violations: $(grep '^VIOLATION' seed_$(basename $id).log | sed 's/.*replay\///' | tr '\n' ' ')"
+  grep -E "^UNDECIDED" seed_$(basename $id).log | head -3
 done
 git -C $VP_RUN_REPO checkout -q -- .
